@@ -16,7 +16,7 @@ from pathlib import Path
 from vt import wfprog as WP
 
 LEVEL = "model_checking"
-QUICK = ["par_chain", "fanin", "fanout", "split2_then", "split2_comb", "diamond_plus"]
+QUICK = ["par_chain", "fanin", "fanout", "split2_then", "split2_comb", "diamond_plus", "split4"]
 THOROUGH = QUICK + ["chain3", "indep3", "split2_par", "two_chains", "nested", "chain_fan"]
 # sub-workflows used to pre-populate the cache: program -> list of node names kept
 PREFIX = {"par_chain": ["b"], "fanin": ["a"], "fanout": ["a", "b"], "diamond_plus": ["a", "c"], "two_chains": ["a", "b"],
@@ -124,7 +124,8 @@ def work(part, chunk):
                 WP.make_task(sub, wfin)(cache_root=d)
         monitor, errors = make_monitor(known, pre_done)
         WP.e3_search(part, dict(program=prog, variant=variant), spec, wfin, make_judge(expected, errors), bound=bound,
-                     max_execs=cap, prepare=prepare, monitors=[monitor])
+                     max_execs=cap, prepare=prepare, monitors=[monitor],
+                     submitter_kwargs=dict(max_concurrent=2) if variant == "limit2" else None)
 
 
 def run(ctx):
@@ -142,6 +143,8 @@ def run(ctx):
         else:
             bound, cap = (2, 4000) if ctx.thorough else (2, 500)
         items.append((p, "empty", bound, cap))
+        if n >= 4:
+            items.append((p, "limit2", bound, cap))  # exactly-once must also hold under a concurrency limit
         if p in PREFIX:
             items.append((p, "prepopulated", bound, cap))
     ctx.rule = ("(program, initial cache) pairs x all explored schedules of the async loop, plus the sequential loop per "
@@ -170,4 +173,5 @@ def replay(ctx, case):
         prepare = lambda d: WP.make_task(sub, wfin)(cache_root=d)
     monitor, errors = make_monitor(known, pre_done)
     return WP.replay_one(part, dict(program=prog, variant=case["variant"]), spec, wfin, make_judge(expected, errors),
-                         case["schedule"], prepare=prepare, monitors=[monitor])
+                         case["schedule"], prepare=prepare, monitors=[monitor],
+                         submitter_kwargs=dict(max_concurrent=2) if case["variant"] == "limit2" else None)
